@@ -105,6 +105,9 @@ def rand_box(rng, n, kind):
             k = 2
         elif kind == "boxed_degenerate":
             k = 4
+        elif kind == "all_fixed":
+            lb[i] = ub[i] = c  # every variable fixed: the box is a single point
+            continue
         else:  # mixed
             k = int(rng.integers(0, 5))
         if k == 1:
@@ -496,6 +499,23 @@ def _fam_sphere(rng, n, spec):
     return f, g, dict(convex=False, complex_safe=True, cf=lambda x: np.sum(x**2))
 
 
+def _fam_flat(rng, n, spec):
+    """An objective that does not depend on some (or any) of its variables: constant, or a quadratic in the first variable only."""
+    c0 = float(rng.normal())
+    partial = bool(rng.random() < 0.5) and n >= 2
+
+    def f(x):
+        return c0 + (float((x[0] - 0.3) ** 2) if partial else 0.0)
+
+    def g(x):
+        out = np.zeros(x.size)
+        if partial:
+            out[0] = 2.0 * (x[0] - 0.3)
+        return out
+
+    return f, g, dict(convex=False, complex_safe=False)
+
+
 def _fam_quantized(rng, n, spec):
     """A smooth QP reported with finite resolution (plateaus): trial values can tie with the start value exactly."""
     A = rand_spd(rng, n, float(spec.get("cond", 30.0)))
@@ -532,6 +552,7 @@ _FAMILIES = {
     "badly_scaled": _fam_badly_scaled,
     "quartic": _fam_quartic,
     "sphere": _fam_sphere,
+    "flat": _fam_flat,
     "quantized": _fam_quantized,
 }
 
